@@ -233,7 +233,7 @@ def run(ctx):
             clause('coprime', okc, 'gcd(q, k) = 1')
             if Kused is not None and T.op(Kused) == 'div':
                 # k is computed by a division: q != 0 must be established (C12 shares this clause)
-                row['q_nonzero'] = m.ne(T.int(0), q)
+                row['q_nonzero'] = m.ne(T.int(0), q) or m.lt(T.int(0), q)        # q > 0 implies q != 0
                 if not row['q_nonzero']:
                     ctx.note('R06a', key0 + ':q_nonzero', 'k = (p-1) div q computed without q != 0 guard', f)
         # generators
